@@ -242,10 +242,88 @@ def ivuseAnswer (ws : List String) : String :=
         (if pos == "loopvalue" then [(14, Operand.lit 0, i)] else [])
       let W : Loop := { lvs := lvs, body := [.s (.bin 15 .ge (.var 10) ibound), .sif (.var 15) false [.brk (.var (if pos == "loopvalue" then 14 else 11))],
                                              .s (.bin 12 .add (.var 11) addend), .s (.bin 13 .add (.var 10) (.lit 1))] }
-      let extra := if pos == "print" then usesL 0 (.s (.print i)) else false
+      -- IsPointer / Not / IndexedAccess / Cast / LateInitAssignment / StructInit / ClosureInit all read their operand
+      let extra := if ["print", "ip", "nt", "ix", "cs", "la", "st", "cl"].contains pos then usesL 0 (.s (.print i)) else false
       if usesLoop 0 W || extra then "kept" else "elim"
     | none => "bad-line"
   | _ => "bad-line"
+
+/-- `licmk`: loop body over every statement kind -> names of the hoisted statements -/
+def opdVars (s : String) : List Nat :=
+  match operandOf s with
+  | some (.var k) => [k]
+  | _ => []
+
+def nameOf (s : String) : Nat :=
+  match exprOf s with
+  | some (.var k) => k
+  | _ => 0
+
+partial def parseLS : List String → Option (List LS)
+  | [] => some []
+  | "b" :: x :: o :: a :: b :: r =>
+    (parseLS r).map fun t => LS.pure (nameOf x) (opdVars a ++ opdVars b) (o == "div" || o == "mod") :: t
+  | "ip" :: x :: a :: r => (parseLS r).map fun t => LS.pure (nameOf x) (opdVars a) false :: t
+  | "nt" :: x :: a :: r => (parseLS r).map fun t => LS.pure (nameOf x) (opdVars a) false :: t
+  | "cs" :: x :: a :: r => (parseLS r).map fun t => LS.pure (nameOf x) (opdVars a) false :: t
+  | "cl" :: x :: a :: r => (parseLS r).map fun t => LS.pure (nameOf x) (opdVars a) false :: t
+  | "ix" :: x :: a :: _ :: r => (parseLS r).map fun t => LS.pure (nameOf x) (opdVars a) false :: t
+  | "st" :: x :: n :: r =>
+    let n := n.toNat!
+    (parseLS (r.drop n)).map fun t => LS.pure (nameOf x) ((r.take n).flatMap opdVars) false :: t
+  | "ld" :: x :: r => (parseLS r).map fun t => LS.stay [nameOf x] :: t
+  | "la" :: x :: _ :: r => (parseLS r).map fun t => LS.stay [nameOf x] :: t
+  | "cr" :: c :: n :: r =>
+    let n := n.toNat!
+    (parseLS (r.drop n)).map fun t => LS.stay (if c == "_" then [] else [nameOf c]) :: t
+  | "p" :: _ :: r => (parseLS r).map fun t => LS.stay [] :: t
+  | "k" :: _ :: r => (parseLS r).map fun t => LS.stay [] :: t
+  | "wh" :: x :: r => (parseLS r).map fun t => LS.stay [nameOf x] :: t
+  | "if" :: n :: r =>
+    let n := n.toNat!
+    (parseLS (r.drop n)).map fun t => LS.stay ((r.take n).map nameOf) :: t
+  | "sf" :: r => (parseLS r).map fun t => LS.stay [] :: t
+  | _ => none
+
+def licmkAnswer (ws : List String) : String :=
+  match parseLS ws with
+  | some p =>
+    let h := (licmF p [0]).1.filterMap fun s => match s with
+      | .pure x _ _ => some ("v" ++ pad2 x)
+      | .stay _ => none
+    "hoisted " ++ (if h.isEmpty then "-" else ",".intercalate h)
+  | none => "bad-line"
+
+/-- `csek <block1> / <block2>` over Binary, IndexedAccess (`ix`), IsPointer (`ip`), Not (`nt`), effects (`p`) -/
+partial def parseCS : List String → Option (List CS)
+  | [] => some []
+  | "b" :: _ :: o :: a :: b :: r =>
+    match opOf o, operandOf a, operandOf b with
+    | some o, some a, some b => (parseCS r).map (CS.bin o a b :: ·)
+    | _, _, _ => none
+  | "ix" :: _ :: a :: i :: r =>
+    match operandOf a, i.toNat? with
+    | some a, some i => (parseCS r).map (CS.un 0 a i :: ·)
+    | _, _ => none
+  | "ip" :: _ :: a :: r => (operandOf a).bind fun a => (parseCS r).map (CS.un 1 a 0 :: ·)
+  | "nt" :: _ :: a :: r => (operandOf a).bind fun a => (parseCS r).map (CS.un 2 a 0 :: ·)
+  | "p" :: _ :: r => (parseCS r).map (CS.eff :: ·)
+  | _ => none
+
+def showCKey : CKey → String
+  | .b k => s!"{opName k.1}:{showOpd k.2.1}:{showOpd k.2.2}"
+  | .u 0 a i => s!"ix:{showOpd a}:{i}"
+  | .u 1 a _ => s!"ip:{showOpd a}"
+  | .u _ a _ => s!"nt:{showOpd a}"
+
+def csekAnswer (ws : List String) : String :=
+  let i := ws.idxOf "/"
+  match parseCS (ws.take i), parseCS (ws.drop (i + 1)) with
+  | some s1, some s2 =>
+    let ks := ((cseCommonC s1 s2).map showCKey).eraseDups
+    let ks := (ks.toArray.qsort (· < ·)).toList
+    "hoisted " ++ (if ks.isEmpty then "-" else ",".intercalate ks)
+  | _, _ => "bad-line"
 
 def licmAnswer (ws : List String) : String :=
   match parseS ws with
@@ -312,10 +390,12 @@ def step (_ : Unit) (line : String) : Unit × String :=
       | _, _, _ => "bad-line"
     | "dce" :: rest => dceAnswer rest
     | "licm" :: rest => licmAnswer rest
+    | "licmk" :: rest => licmkAnswer rest
     | "ivuse" :: rest => ivuseAnswer rest
     | "lvn" :: rest => lvnAnswer rest
     | "lvnw" :: rest => lvnwAnswer rest
     | "cse" :: rest => cseAnswer rest
+    | "csek" :: rest => csekAnswer rest
     | "inl" :: rest => inlAnswer rest
     | "srloop" :: rest => srAnswer true rest
     | "srorig" :: rest => srAnswer false rest
